@@ -161,7 +161,8 @@ def falsify(ctx):
     with tempfile.TemporaryDirectory(prefix="j2m-c19-") as d:
         clitools.write_files(d, {"d.json": [{"a": 1, "b": {"c": "x"}}], "plain.json": [{"a": 1, "b": 2.5, "c": True}]})
         jobs, metas = [], []
-        directed = ['B = """top\n    \nbottom"""', 'C = """a\n\t\nb\n\u3000\nc"""  # ws-only lines', '"""note"""', '"é" + "\\\\"', "'x' 'y'", '"only"', '"a" if 1 else "b"', 'S = "a\u2028b"', "# c\x85d", '"""m\x0cn"""']
+        directed = ['D = "e\u0301le\u0300ve"  # decomposed accents', 'OHM = "\u2126 \u212b"', '# \u1112\u1161\u11ab jamo',
+                    'B = """top\n    \nbottom"""', 'C = """a\n\t\nb\n\u3000\nc"""  # ws-only lines', '"""note"""', '"é" + "\\\\"', "'x' 'y'", '"only"', '"a" if 1 else "b"', 'S = "a\u2028b"', "# c\x85d", '"""m\x0cn"""']
         for k in range(len(directed) + ctx.n(24, 300)):
             weird = gen_arg(rng)
             # the preamble is code: the odd characters go into a comment or a string constant of valid Python
